@@ -16,8 +16,11 @@ Readings (DESIGN.md C18):
     '#rrggbb' -> '#rgb' -> nearest cube entry (checks C18/true-colour-degrade-256, -88); the strict
     reading "nearest to the 8-bit value" is the separate check C18/degrade-nearest-8bit.
   * 'gN': nearest to N*255/100 exactly or to that value rounded half-up to 8 bits (see spec/colour.py).
-  * text that only Python's int() leniency turns into a number ('h+5', '#0x1', 'g#-0', 'h١') is neither
-    demanded nor forbidden: either accepted or AttrSpecError, never another exception.
+  * 'hN' / 'gN' / 'g#XX' text that only Python's int() leniency turns into a number ('h+5', 'h 5', 'g#-0',
+    'h١', 'h5\n') is neither demanded nor forbidden: either accepted or AttrSpecError, never another exception
+    (the strict reading -- such text is an unknown colour name -- is the observation C18/number-text-strict).
+  * '#' names are strict: '#' and exactly 3 or 6 ASCII hex digits; '#0_0', '#+12', '#ff\n', '#٣٣٣' are unknown
+    colour names and must raise AttrSpecError (owner's ruling, known finding 8aac5af).
   * short forms ('#rgb', 'gN', 'g#XX', 'hN') at 2^24 denote the RGB value of the 256-palette entry.
 
 Failures expected on the unchanged tree (genuine, kept red): 'h0' at 88 (description raises ValueError);
@@ -624,7 +627,7 @@ def reject_cases():
             yield {"fg": fg, "bg": bg, "depth": depth, "reason": "invalid number of colours"}
 
 
-ALPHABET = "0123456789abcdefgGhH#xzX-+_ ,.\t٣１²\x00"
+ALPHABET = "0123456789abcdefgGhH#xzX-+_ ,.\t٣１²\x00\n\r"
 SEEDS = [
     "h0", "h12", "h255", "h87", "#abc", "#000", "#fff", "#a1b2c3", "#000000", "#ffffff", "g0", "g50", "g100", "g#00", "g#7f", "g#ff", "yellow",
     "default", "black", "dark red", "bold", "yellow,bold", "bold,#abc", "g50,blink", "", "#ABCDEF", "#AbC",
@@ -664,6 +667,49 @@ def short_strings():
         for k in range(0, 4):
             for body in itertools.product(alpha, repeat=k):
                 yield prefix + "".join(body)
+
+
+# one junk character inside an otherwise well-formed name: characters Python's int() is lenient about (blanks of
+# every kind, signs, '_', non-ASCII decimal digits), characters a careless "is it hex?" test lets through (letters
+# past f, 'x', other alphanumerics, fullwidth / mathematical digits and letters), line ends (a regex '$' holds
+# before a trailing "\n"; str.splitlines / str.strip know more of them), separators of the specification itself.
+JUNK = [
+    "\n", "\r", " ", "\t", "\x0b", "\x0c", "\x1c", "\x1d", "\x1e", "\x1f", "\x85", "\xa0", "\u2028", "\u2029", "\u3000", "\x00",
+    "+", "-", "_", ".", ",", "#", "x", "X", "g", "G", "h", "z", "o", "b", "l", "O",
+    "٣", "３", "²", "\U0001d7d1", "ａ", "Ｆ", "é", "ß", "\u0660", "\u00bd",
+]
+JUNK_FORMS = (
+    # prefix, body alphabets (each cut to the body length), body lengths: every accepted length and one less / more
+    ("#", ("0123456", "fffffff", "AbCdEf0", "a5c0e9b"), (2, 3, 4, 5, 6, 7)),
+    ("h", ("1234", "0000", "2559"), (1, 2, 3, 4)),
+    ("g", ("1000", "5050", "0999"), (1, 2, 3, 4)),
+    ("g#", ("7f00", "FFff", "0a1B"), (1, 2, 3)),
+)
+
+
+def junk_names():
+    """(form prefix, name): every name of JUNK_FORMS with ONE character of the body replaced by a junk character,
+    at EVERY position of the body (so the junk is first, inner and last), for every body length."""
+    seen = set()
+    for prefix, bodies, lengths in JUNK_FORMS:
+        for n in lengths:
+            for body in bodies:
+                for pos in range(n):
+                    for j in JUNK:
+                        if prefix in ("#", "g#") and j in "b" or j in body[:n]:
+                            continue  # not junk there ('b' is a hex digit)
+                        name = prefix + body[:pos] + j + body[pos + 1 : n]
+                        if name not in seen:
+                            seen.add(name)
+                            yield prefix, name
+
+
+def junk_cases(depths):
+    """the junk names as foreground (alone, after and before a setting), as background, and on both sides."""
+    for prefix, name in junk_names():
+        for depth in depths:
+            for fg, bg in ((name, "default"), ("default", name), ("bold," + name, "default"), (name + ",underline", "black"), (name, name), ("yellow", name)):
+                yield prefix, name, {"fg": fg, "bg": bg, "depth": depth}
 
 
 # ---------------------------------------------------------------------------------------------------
@@ -859,6 +905,27 @@ def _run(tier, seed, quick, t_start, r_, salt, chunks, sweep_bounds, pool_, pend
     mal.bound = f"exhaustive: h/g/g#/# + every body of length <= 3 over 12 characters ({nshort} strings) x {'3 colour' if quick else '5'} depths x fg/bg; plus {nmut} seeded mutations (1-3 edits over a {len(ALPHABET)}-character alphabet) of {len(SEEDS)} valid specifications x fg/bg/both at a random depth"
     mal.stop()
 
+    # one junk character in a well-formed name
+    junk = KCheck("C18/junk-character-in-a-name", "'#rgb' / '#rrggbb' / 'hN' / 'gN' / 'g#XX' names (and the same one character shorter / longer) with ONE character replaced by a character that is not a digit of the form, at every position, as foreground (alone, next to a setting), as background and on both sides: a '#' name is an unknown colour name -> AttrSpecError and nothing else, never accepted; h/g/g# text: by the reference grammar (int()-leniency: accepted or AttrSpecError), never another exception, whatever is accepted round-trips", True, "").start()
+    strict = KCheck("C18/number-text-strict", "observation (strict reading): 'hN' / 'gN' / 'g#XX' text that only int()'s leniency reads as a number (blanks, signs, '_', non-ASCII digits inside or after the number) is an unknown colour name -> AttrSpecError", True, "the names of C18/junk-character-in-a-name the reference classes as lenient").start()
+    jdepths = (88, 256, TRUE) if quick else DEPTHS
+    nj = 0
+    for prefix, name, case in junk_cases(jdepths):
+        nj += 1
+        r = refspec(case["fg"], case["bg"], case["depth"])
+        if prefix == "#" and case["bg"] == name and not ref.parse_colour(name.strip(), 256, PAL256, PAL88).status == "ok":
+            # oracle self-check: a damaged '#' name in the background is never "either way" (only a blank at the very
+            # end / start of an otherwise complete name falls under the undocumented blanks-around-the-background case)
+            assert r.status == "invalid", (case, r.status, r.why)
+        ok, det = ev_malformed(case)
+        junk.case((case["fg"], case["bg"], case["depth"]), ok, det, nontrivial=r.status == "invalid", sample=case)
+        if r.status == "lenient" and prefix != "#":
+            ok, det = ev_reject(case | {"reason": "text that only int()'s leniency reads as a number"})
+            strict.case((case["fg"], case["bg"], case["depth"]), ok, det, sample=case)
+    junk.bound = f"{len(JUNK)} junk characters x every position x bodies of {', '.join(f'{p!r}: lengths {list(ls)} x {len(b)} digit strings' for p, b, ls in JUNK_FORMS)} x 6 placements (fg, bg, after / before a setting, both sides, next to a basic colour) x depths {list(jdepths)}: {nj} specifications"
+    junk.stop()
+    strict.stop()
+
     # strict nearest for 6-digit colours
     n8 = KCheck("C18/degrade-nearest-8bit", "strict reading of 'degrade to the nearest colour': '#rrggbb' at 256 / 88 reaches the cube entry whose components are nearest to the 8-bit components (ties either way)", True, "each component over all 256 values with the other two at 00 / 80 / ff, and the gray diagonal; depths 256 and 88").start()
     for depth in (256, 88):
@@ -898,7 +965,7 @@ def _run(tier, seed, quick, t_start, r_, salt, chunks, sweep_bounds, pool_, pend
         sw[k].samples = [{"fg": "#%06x" % (x if first[2] == 1 else _sample_value(x, salt, first[2])), "depth": k} for x in (0, 1, 2)]
     bound = "; ".join(f"#rrggbb at {k}: {sweep_bounds[k][1]}" for k in sw)
 
-    checks = [rt, mean, dep, mixed, xt, ex, sett, eqc, rej, mal, n8, sw["true"], sw["256"], sw["88"]]
+    checks = [rt, mean, dep, mixed, xt, ex, sett, eqc, rej, mal, junk, strict, n8, sw["true"], sw["256"], sw["88"]]
     return {
         "checks": [c.result() for c in checks],
         "bound": f"finite descriptor domain exhaustive at 5 depths x fg/bg; settings: all subsets and orders; {bound}; malformed: {mal.bound}; wall {time.time() - t_start:.1f}s",
@@ -940,6 +1007,8 @@ EVALUATORS = {
     "C18/rgb-matches-xterm-tables": lambda c: ev_xterm(_with_short(c, None)),
     "C18/rejected-with-library-error": ev_reject,
     "C18/malformed-strings": ev_malformed,
+    "C18/junk-character-in-a-name": ev_malformed,
+    "C18/number-text-strict": ev_reject,
     "C18/equal-implies-equal-hash": ev_pair,
     "C18/degrade-nearest-8bit": lambda c: ev_nearest8(c.get("case", c)),
     "C18/exact-palette-values-preserved": lambda c: ev_exact(c.get("case", c)),
@@ -973,6 +1042,10 @@ def replay(check_name, case):
 # colour-cube (#rgb) and gray (gN, g#xx) values; a 24-bit #rrggbb given below true-colour depth is first
 # reduced to its #rgb form (high nibbles) by design and then mapped to the nearest entry. The strict
 # reading (nearest entry to the full 24-bit value) is kept as an observation, not a violation.
+# The second entry: the recorded reading (docstring above, DESIGN.md C18) leaves 'h+5' / 'h 5' / 'g#-0' / 'h١' / 'h5\n'
+# open ("neither demanded nor forbidden"); the strict reading is reported as an observation until the owner rules on
+# it the way he ruled on '#' names (known finding 8aac5af).
 INFORMATIONAL = {
+    "C18/number-text-strict": "hN / gN / g#XX text that only int()'s leniency reads as a number: recorded reading is 'either accepted or AttrSpecError' (checked in C18/junk-character-in-a-name and C18/malformed-strings); the strict reading is an observation",
     "C18/degrade-nearest-8bit": "strict nearest-entry for #rrggbb below true colour is not demanded by the statement (quantised reading passes on all 16.7 M values)",
 }
